@@ -139,6 +139,7 @@ GenVal(l, u, j) ==
     [] Scheme = 2 -> <<DNorm(<<((l + 2 * u + 3 * j) % 7) - 3, (l + u + j) % 2>>), DZero>>
     [] Scheme = 3 -> <<DInt(((l + 2 * u + 3 * j) % 5) - 2), DInt(((2 * l + u + j) % 3) - 1)>>
     [] Scheme \in {4, 5} -> <<DInt(1 + ((2 * l + 3 * u + 5 * j) % 4)), DZero>>
+    [] Scheme = 7 -> <<DInt((l + 2 * u + 3 * j) % 4), DZero>>             \* non-negative with exact zeros
     [] Scheme = 6 -> <<DInt(1 + ((l + 2 * u + 3 * j) % 3)), DZero>>     \* small positive (deep products)
 PosVal(l, u, j) == <<DInt(1 + ((2 * l + 3 * u + 5 * j) % 4)), DZero>>
 (* a normalised dyadic row of length n: 1/2, 1/4, ..., 2^-(n-1), 2^-(n-1), rotated by r *)
@@ -356,7 +357,7 @@ Reload ==          \* fresh context, fresh (random) values, then load_state_dict
   /\ UNCHANGED saved
 Eval ==
   /\ "eval" \in RunActs
-  /\ (hist = <<>> \/ Last(hist).a # "eval")
+  /\ (IF hist = <<>> THEN TRUE ELSE Last(hist).a # "eval")
   /\ Step([a |-> "eval", ver |-> ver])
   /\ UNCHANGED <<ver, saved>>
 
@@ -467,6 +468,17 @@ QTables ==
                   IN [o \in 1..Len(d) |-> [u \in 1..Len(d[o]) |-> d[o][u][1]]]]
           ELSE <<>>]
 
+(* rows (assignments) at which some unit of some layer evaluates to exactly zero: in the   *)
+(* log-space semirings such a unit is represented by log 0, through which no derivative    *)
+(* information flows; the gradient equality clause of C13 is evaluated on the other rows   *)
+ZeroRows ==
+  IF GradMod = 0 THEN <<>>
+  ELSE LET as == AssignSeq IN
+       [q \in 1..Len(as) |->
+          LET vals == ValsUpTo([layers |-> layers, outs |-> <<>>], StoreAt(ver), NoTh,
+                               as[q], XN(as[q]), NL)
+          IN \E n \in 1..NL : \E u \in 1..Len(vals[n]) : vals[n][u][1] = CZero]
+
 HistJson ==
   [n \in 1..Len(hist) |->
      IF hist[n].a = "eval"
@@ -484,6 +496,7 @@ Behaviour ==
    expect |-> [i \in 1..NP |-> ExpectOf(Pool, i)],
    hist |-> HistJson,
    grads |-> Grads,
+   zerorows |-> ZeroRows,
    qtables |-> QTables]
 
 StructBehaviour ==
